@@ -74,7 +74,8 @@ class Server:
         if p.returncode != 0:
             raise vf.NoVerdict("ego config set %s failed: %s %s" % (key, p.stdout, p.stderr))
 
-    def start(self, wait=15):
+    def start(self, wait=None):
+        wait = wait or (15 + 8 * os.getloadavg()[0] / (os.cpu_count() or 1))   # a saturated machine starts processes slowly
         if not self.users_conn and not os.path.exists(self.userfile):
             self.write_users()
         for k, v in self.settings.items():
@@ -93,7 +94,8 @@ class Server:
                     return self
             except Exception:
                 time.sleep(0.1)
-        raise vf.NoVerdict("ego server did not start: " + open(os.path.join(self.dir, "stdout.txt")).read()[-2000:])
+        self.stop()
+        raise vf.NoVerdict("ego server did not start within %ss: " % wait + open(os.path.join(self.dir, "stdout.txt")).read()[-2000:])
 
     def stop(self):
         if self.proc and self.proc.poll() is None:
@@ -129,8 +131,8 @@ class Server:
         finally:
             c.close()
 
-    def logon(self, user, pw):
-        r = self.req("POST", "/services/admin/logon", auth=(user, pw))
+    def logon(self, user, pw, timeout=240):
+        r = self.req("POST", "/services/admin/logon", auth=(user, pw), timeout=timeout)
         j = r.json() or {}
         return j.get("token")
 
